@@ -157,12 +157,21 @@ where
         PlannerKind::Conn => AnyPlanner::Conn(RRTConnect::new(params.maxd, params.bias, &cfg)),
         PlannerKind::Prm => AnyPlanner::Prm(PRM::new(params.build_secs, params.radius, &cfg)),
     };
-    let mk_pd = |i: usize| -> Arc<PD<S, SP>> {
+    let fresh_pd = |i: usize| -> Arc<PD<S, SP>> {
         Arc::new(ProblemDefinition {
             space: space.clone(),
             start_states: problems[i].starts.clone(),
             goal: problems[i].goal.clone(),
         })
+    };
+    // a user typically keeps ONE Arc per problem and hands clones of it to setup / set_problem_definition again
+    // (pointer-equal problem definitions across calls); every fourth call gets a fresh object instead
+    let kept: Vec<Arc<PD<S, SP>>> = (0..problems.len()).map(fresh_pd).collect();
+    let call_no = std::cell::Cell::new(0usize);
+    let mk_pd = |i: usize| -> Arc<PD<S, SP>> {
+        let k = call_no.get();
+        call_no.set(k + 1);
+        if k % 4 == 3 { fresh_pd(i) } else { kept[i].clone() }
     };
     // intern the start states first so that they get small ids
     for p in problems {
